@@ -17,10 +17,12 @@ import (
 // Calls are counted across both proxies of an environment in the order they are made, so a
 // dry run (K = 0) measures how many fault points an operation has.
 type Fault struct {
-	K     int      // 0 = count only
-	Calls int      // calls seen since Arm
-	Fired string   // name of the method that failed
-	Log   []string // names of the calls seen
+	K       int      // 0 = count only
+	Miss    bool     // the K-th call, when it is a lookup returning (value, found, error), reports "not found" instead of an error
+	Lookups []int    // indices (1-based) of the lookup calls seen
+	Calls   int      // calls seen since Arm
+	Fired   string   // name of the method that failed
+	Log     []string // names of the calls seen
 }
 
 type faultable struct{ f *Fault }
@@ -36,6 +38,18 @@ func (p *faultable) hit(name string) error {
 		return fmt.Errorf("verif: injected fault at call %d (%s)", p.f.K, name)
 	}
 	return nil
+}
+
+// hitLookup is hit for lookups with a found flag: miss = true asks the proxy to answer "not found".
+func (p *faultable) hitLookup(name string) (miss bool, err error) {
+	if p.f != nil {
+		p.f.Lookups = append(p.f.Lookups, p.f.Calls+1)
+	}
+	err = p.hit(name)
+	if err != nil && p.f.Miss {
+		return true, nil
+	}
+	return false, err
 }
 
 // BankProxy forwards to the real bank keeper; mutating / fallible methods are fault points.
@@ -55,6 +69,13 @@ func (e *E1) Arm(k int) *Fault {
 	f := &Fault{K: k}
 	e.BankProxy.f = f
 	e.EvmProxy.f = f
+	return f
+}
+
+// ArmMiss is Arm with the "not found" answer for lookups (other calls fail as usual).
+func (e *E1) ArmMiss(k int) *Fault {
+	f := e.Arm(k)
+	f.Miss = true
 	return f
 }
 
@@ -132,13 +153,13 @@ func (p *EvmProxy) PickValidatorForMessage(ctx context.Context, c string, req *s
 	return p.Real.PickValidatorForMessage(ctx, c, req)
 }
 func (p *EvmProxy) GetEthAddressByValidator(ctx context.Context, v sdk.ValAddress, c string) (*skywaytypes.EthAddress, bool, error) {
-	if err := p.hit("evm.GetEthAddressByValidator"); err != nil {
+	if miss, err := p.hitLookup("evm.GetEthAddressByValidator"); err != nil || miss {
 		return nil, false, err
 	}
 	return p.Real.GetEthAddressByValidator(ctx, v, c)
 }
 func (p *EvmProxy) GetValidatorAddressByEthAddress(ctx context.Context, a skywaytypes.EthAddress, c string) (sdk.ValAddress, bool, error) {
-	if err := p.hit("evm.GetValidatorAddressByEthAddress"); err != nil {
+	if miss, err := p.hitLookup("evm.GetValidatorAddressByEthAddress"); err != nil || miss {
 		return nil, false, err
 	}
 	return p.Real.GetValidatorAddressByEthAddress(ctx, a, c)
